@@ -45,9 +45,10 @@ import (
 var rec *evid.Rec
 
 const (
-	classF14 = "C18/importer-scope-leak"       // F14
-	classF1  = "C18/include-data-var"          // C18.F1
-	classF2  = "C18/main-file-relative-search" // C18.F2
+	classF14 = "C18/importer-scope-leak"              // F14
+	classF1  = "C18/include-data-var"                 // C18.F1
+	classF2  = "C18/main-file-relative-search"        // C18.F2
+	classF3  = "C18/data-alias-rebound-after-include" // C18.F3
 
 	stepBudget = 3000000
 	outBudget  = 200000
@@ -364,6 +365,8 @@ func knownClassOfTree(c *treeCase, m *model) string {
 		return classF14
 	case m.inclVar:
 		return classF1
+	case m.rebindHit:
+		return classF3
 	case c.Mode == "cli" && c.MainFile != "" && filepath.Clean("./"+c.Cwd) != filepath.Dir(filepath.Clean(c.MainFile)):
 		for _, d := range c.Main.Dirs {
 			if s, ok := searchOf(d.Meta); ok && isRelSearch(s) {
@@ -896,8 +899,17 @@ func replayCase(sub string, raw json.RawMessage) string {
 	return "unknown sub " + sub
 }
 
+var sampleCount int64
+
+// sampleTick thins the samples before the (costly) rendering of a tree.
+func sampleTick() bool {
+	sampleCount++
+	n := sampleCount
+	return n <= 4 || n&(n-1) == 0
+}
+
 func flags() genFlags {
-	return genFlags{f14known: rec.KnownClass(classF14), f1known: rec.KnownClass(classF1)}
+	return genFlags{f14known: rec.KnownClass(classF14), f1known: rec.KnownClass(classF1), f3known: rec.KnownClass(classF3)}
 }
 
 // excludedTree applies the known-finding classes to a generated tree (the
@@ -954,7 +966,7 @@ func TestC18(t *testing.T) {
 	rec.Exhaustive(fmt.Sprintf("candidate-subsets(%d cases: 3 importers x 2 names x 3 kinds x with/without search x all subsets of 6/4 candidates)", len(rcs)), complete)
 
 	// (R1) random trees through the library
-	rec.Rapid(t, "tree", rec.Scale(9000, 400000), func(t *rapid.T) {
+	rec.Rapid(t, "tree", rec.Scale(40000, 800000), func(t *rapid.T) {
 		c := genTree(t, genLayoutLib(t), flags())
 		m := newModel(&c)
 		m.run()
@@ -962,14 +974,16 @@ func TestC18(t *testing.T) {
 			return
 		}
 		noteTree("tree", &c, m)
-		rec.Sample(map[string]any{"tree": describe(&c)})
+		if sampleTick() {
+			rec.Sample(map[string]any{"tree": describe(&c)})
+		}
 		if msg := checkTree(c); msg != "" {
 			t.Fatalf("%s", rec.Fail("tree", c, "%s", msg))
 		}
 	})
 
 	// (R2) negative probes
-	rec.Rapid(t, "probe", rec.Scale(2500, 100000), func(t *rapid.T) {
+	rec.Rapid(t, "probe", rec.Scale(12000, 200000), func(t *rapid.T) {
 		c := genTree(t, genLayoutLib(t), flags())
 		m := newModel(&c)
 		m.run()
@@ -1033,7 +1047,7 @@ func TestC18(t *testing.T) {
 	})
 
 	// (R3) modulemeta
-	rec.Rapid(t, "meta", rec.Scale(2500, 100000), func(t *rapid.T) {
+	rec.Rapid(t, "meta", rec.Scale(10000, 120000), func(t *rapid.T) {
 		c := genTree(t, genLayoutLib(t), flags())
 		m := newModel(&c)
 		// names reachable through the search paths alone, plus a missing one
@@ -1048,8 +1062,10 @@ func TestC18(t *testing.T) {
 				}
 			}
 		}
-		names = append(names, "nosuch")
 		sort.Strings(names)
+		if len(names) == 0 || rapid.IntRange(0, 11).Draw(t, "missing") == 11 {
+			names = []string{"nosuch"}
+		}
 		mc := metaCase{Tree: c, Name: names[rapid.IntRange(0, len(names)-1).Draw(t, "name")]}
 		rec.Eval()
 		fi, n, _ := m.resolve("", false, directive{Name: mc.Name}, ".jq")
@@ -1077,7 +1093,7 @@ func TestC18(t *testing.T) {
 	})
 
 	// (R4) data files
-	rec.Rapid(t, "data", rec.Scale(2500, 100000), func(t *rapid.T) {
+	rec.Rapid(t, "data", rec.Scale(10000, 120000), func(t *rapid.T) {
 		n := rapid.IntRange(0, 5).Draw(t, "nvals")
 		var sb strings.Builder
 		sb.WriteString(rapid.SampledFrom([]string{"", "", "\n", "  "}).Draw(t, "lead"))
@@ -1107,7 +1123,7 @@ func TestC18(t *testing.T) {
 	})
 
 	// (R5) random trees through the command: -L, default paths, ~/.jq, -f
-	rec.Rapid(t, "cli", rec.Scale(700, 30000), func(t *rapid.T) {
+	rec.Rapid(t, "cli", rec.Scale(3000, 50000), func(t *rapid.T) {
 		c := genTree(t, genLayoutCLI(t, rec.KnownClass(classF2)), flags())
 		m := newModel(&c)
 		m.run()
